@@ -807,6 +807,11 @@ func cmdRacePass(args []string) int {
 			if len(s) >= 2 {
 				if t, err := x.Transpose(); err == nil {
 					out = append(out, t.Sum())
+					if ref.Size(s) <= 5000 { // matrix products of the whole (batched) matrices: cubic cost, small shapes only
+						if mm, err := y.MatMul(t); err == nil {
+							out = append(out, mm.Sum(), mm.Max())
+						}
+					}
 				}
 			}
 			return out
